@@ -93,6 +93,15 @@ CHECKS = {
              "non-NULL final value gets exactly one destructor call at free/auto-free/finalize (none earlier), values survive "
              "revive; for table sizes 1..1024 with up to 200 keys (long chains, chained memory blocks)",
         ref="DESIGN.md §5 C16"),
+    "C17": dict(
+        technique="runtime monitoring with a reference model of the live rank set checked after every operation, probe "
+                  "units reading the self rank, concurrent creators with ownership records, ASan/TSan builds",
+        category="exploration",
+        text="held on the executions produced: hundreds of random stream-lifecycle operations per runtime lifetime agree "
+             "with the reference rank set (smallest unused, grant iff free, reuse after free, get_num), join/revive cycles "
+             "and main-scheduler replacement (own running stream incl. primary, terminated stream) keep work and caller "
+             "running; concurrent creators never obtain equal ranks",
+        ref="DESIGN.md §5 C17"),
 }
 
 
